@@ -44,6 +44,9 @@ def run(res, replay=None):
                           'bounds': [[0.25, 8.0], [0.25, 6.0]][: (2 if two else 1)], 'n_runs': rng.choice([1, 2, 3]),
                           'seed': rng.randrange(1, 10 ** 6), 'loss': 'poisson' if i % 3 == 2 else 'l2',
                           'x0': None if rng.random() < 0.5 else ([1.0, 1.0][: (2 if two else 1)]), 'cache': rng.random() < 0.5})
+        # Poisson likelihood on the COMPLETE spectrum (the monomorphic classes are exactly 0 in data and model)
+        cases.append({'n': 4, 'times': [0.0, 0.5], 'two_params': False, 'truth': [2.0], 'bounds': [[0.25, 8.0]], 'n_runs': 2,
+                      'seed': 17, 'loss': 'poisson_full', 'x0': [1.0], 'cache': True})
         # explicit start values whose keys are written in a different order than the bounds (different boxes)
         cases.append({'n': 3, 'times': [0.0, 0.5], 'two_params': True, 'truth': [3.0, 0.75], 'bounds': [[2.0, 8.0], [0.25, 1.5]],
                       'n_runs': 1, 'seed': 11, 'loss': 'l2', 'x0': [4.0, 1.0], 'x0_reversed': True, 'cache': True})
